@@ -691,18 +691,24 @@ impl<T> LockFreeStack<T> {
             data: item,
             next: std::ptr::null_mut(),
         }));
+        #[cfg(zipora_verif)]
+        crate::verif_hooks::sched_point("tb.push.alloc", new_node as usize as u64, 0);
 
         loop {
             let head = self.head.load(Ordering::Acquire);
             unsafe {
                 (*new_node).next = head;
             }
+            #[cfg(zipora_verif)]
+            crate::verif_hooks::sched_point("tb.push.linked", new_node as usize as u64, head as usize as u64);
 
             if self
                 .head
                 .compare_exchange_weak(head, new_node, Ordering::Release, Ordering::Relaxed)
                 .is_ok()
             {
+                #[cfg(zipora_verif)]
+                crate::verif_hooks::sched_point("tb.push.cas", new_node as usize as u64, 1);
                 break;
             }
         }
@@ -714,14 +720,22 @@ impl<T> LockFreeStack<T> {
             if head.is_null() {
                 return None;
             }
+            #[cfg(zipora_verif)]
+            crate::verif_hooks::sched_point("tb.pop.loaded", head as usize as u64, 0);
 
             let next = unsafe { (*head).next };
+            #[cfg(zipora_verif)]
+            crate::verif_hooks::sched_point("tb.pop.next", head as usize as u64, next as usize as u64);
             if self
                 .head
                 .compare_exchange_weak(head, next, Ordering::Release, Ordering::Relaxed)
                 .is_ok()
             {
+                #[cfg(zipora_verif)]
+                crate::verif_hooks::sched_point("tb.pop.cas", head as usize as u64, next as usize as u64);
                 let data = unsafe { Box::from_raw(head).data };
+                #[cfg(zipora_verif)]
+                crate::verif_hooks::sched_point("tb.pop.freed", head as usize as u64, 0);
                 return Some(data);
             }
         }
